@@ -37,8 +37,10 @@ What the translator does beyond re-spelling (each is the DEFINITION of the Rust 
   * `return m(..).f(..)` where `m` mutates its receiver (`self.x.next().map(..)`): the receiver call is evaluated
                              first and bound (`let recv = self.x.next(); return recv.map(..)`)
   * `let S { a, b } = v;`    is  `let a = v.a; let b = v.b;`
+  * `let Self { a, b } = self;` in a `&mut self` function binds reborrows of the fields: `a` IS `self.a` in the rest of the
+                             body (the names are replaced; a shadowing closure parameter / pattern is refused)
   * closures are only accepted as arguments of `Range::find` (on a `.clone()`), `Option::map`, `Option::or_else`;
-    they may read but not assign captured variables.
+    `Range::find_map` (on a place, which it advances); they may read but not assign captured variables.
 All semantics live in the hand-written prelude EG/Model/CurveSrcPrelude.lean (`pow`, `Range::find`, `Option::map`, the
 `u64` arithmetic and casts) and in tr_rect's prelude. Anything unknown raises; `generate` then writes a
 CurveSrc.lean that only contains `def translationFailed`, so exactly the theorems of Props/C05/Generated*.lean and
@@ -93,8 +95,8 @@ ROOTS_ELLIPSE = [
     ("Ellipse", None, "new"), ("Ellipse", None, "with_center"), ("Ellipse", None, "center"), ("Ellipse", None, "center_2x"),
     ("Ellipse", "OffsetOutline", "offset"), ("Ellipse", "ContainsPoint", "contains"),
     ("Ellipse", "Dimensions", "bounding_box"), ("Ellipse", "Transform", "translate"),
-    ("EllipseScanlines", None, "new"),
-    ("EllipsePoints", None, "new"), ("Ellipse", "PointsIter", "points"),
+    ("EllipseScanlines", None, "new"), ("EllipseScanlines", "Iterator", "next"),
+    ("EllipsePoints", None, "new"), ("EllipsePoints", "Iterator", "next"), ("Ellipse", "PointsIter", "points"),
 ]
 ROOTS = ROOTS_CIRCLE + ROOTS_ELLIPSE
 
@@ -102,7 +104,7 @@ RANGE_I32 = ("Range", ("i32",))
 LEAN_INT_TYPES = {"i32": "Int", "u32": "Nat", "u64": "Nat"}
 
 # prelude names of this part (a local of the same name gets a trailing `_`)
-CURVE_PRELUDE_NAMES = {"i32_pow", "u32_pow", "range_i32_clone", "range_i32_find", "option_map", "u32_as_u64", "i32_as_u64",
+CURVE_PRELUDE_NAMES = {"i32_pow", "u32_pow", "range_i32_clone", "range_i32_find", "range_i32_find_map", "option_map", "u32_as_u64", "i32_as_u64",
                        "u64_add", "u64_sub", "u64_mul", "u64_div", "u64_eq", "u64_ne", "u64_lt", "u64_le", "u64_gt", "u64_ge",
                        "CurveSrc"}
 
@@ -191,6 +193,13 @@ class CurveTranslator(tr_rect.Translator):
         self.extern_used = set()
         self.fresh = 0
 
+    def translate_fn(self, f):
+        saved, self.fresh = self.fresh, 0       # fresh names are numbered per function
+        try:
+            return super().translate_fn(f)
+        finally:
+            self.fresh = saved
+
     # ---- names
     def is_extern(self, f):
         return f.rel in RECT_RELS
@@ -252,6 +261,8 @@ class CurveTranslator(tr_rect.Translator):
         raise TrError(f"internal: call text `{txt[:40]}` has an unexpected shape")
 
     def mut_call(self, e, env, ctx, line, ind):
+        if e[0] == "mcall" and e[3] == "find_map":
+            return self.mut_find_map(e, env, ctx, line, ind)
         mc = super().mut_call(e, env, ctx, line, ind)
         if mc is None:
             return None
@@ -265,6 +276,29 @@ class CurveTranslator(tr_rect.Translator):
             if not self.is_extern(g):
                 call = self.requalify(call)
         return root, fields, rtype, call, vt
+
+    def mut_find_map(self, e, env, ctx, line, ind):
+        """`PLACE.find_map(|y| ..)` on a `Range<i32>` place: advances the range (value, updated range)"""
+        W = f"{self.where}: line {line}"
+        r = e[2]
+        flds = []
+        while r[0] == "field":
+            flds.append(r[3])
+            r = r[2]
+        if r[0] != "path" or len(r[2]) != 1 or r[2][0] not in env or r[2][0].startswith("%"):
+            raise TrError(f"{W}: `find_map` advances its receiver, which must be a place `var.field..`")
+        root, fields = r[2][0], list(reversed(flds))
+        rtype = env[root]
+        t = rtype
+        for fl in fields:
+            t = self.field_type(t, fl, line)
+        if t != RANGE_I32 or e[4] is not None or len(e[5]) != 1:
+            raise TrError(f"{W}: `find_map(|y| ..)` is only known on Range<i32>")
+        recv = self.place_read(root, fields, rtype)
+        ftxt, ft = self.closure_body(e[5][0], ["i32"], env, ctx, None, ind, W)
+        if isinstance(ft, str) or ft[0] != "Option":
+            raise TrError(f"{W}: the closure of find_map must return an Option")
+        return root, fields, rtype, f"(range_i32_find_map {recv} {ftxt})", ft
 
     # ---- statements: the desugarings listed in the module docstring, then tr_rect's translation
     def var(self, stem):
@@ -368,7 +402,36 @@ class CurveTranslator(tr_rect.Translator):
             return None
         return None
 
+    def subst_names(self, node, names, line):
+        """`name` -> `self.name` for the names bound by `let Self { .. } = self;` (they are reborrows of the fields)"""
+        if isinstance(node, list):
+            return [self.subst_names(x, names, line) for x in node]
+        if not isinstance(node, tuple):
+            return node
+        if len(node) == 3 and node[0] == "path" and isinstance(node[2], list) and len(node[2]) == 1 and node[2][0] in names:
+            return ("field", node[1], ("path", node[1], ["self"]), node[2][0])
+        if node and node[0] == "closure" and any(p in names for p in node[2]):
+            raise TrError(f"{self.where}: line {line}: a closure parameter shadows a name bound by `let Self {{..}} = self`")
+        if node and node[0] == "pbind" and node[2] in names:
+            raise TrError(f"{self.where}: line {line}: a pattern shadows a name bound by `let Self {{..}} = self`")
+        return tuple(self.subst_names(x, names, line) for x in node)
+
     def tr_stmts(self, stmts, i, tail, env, ctx, expected, final, ind):
+        if i < len(stmts) and stmts[i][0] == "let" and stmts[i][2][0] == "pstruct" and stmts[i][4][0] == "path" \
+                and stmts[i][4][2] == ["self"]:
+            _, line, pat, ty, _, _ = stmts[i]
+            st = ctx["self_type"]
+            if pat[2] not in ("Self", st) or "self" not in env or ty is not None:
+                raise TrError(f"{self.where}: line {line}: `let {pat[2]} {{..}} = self` not understood")
+            decl = [n for n, _ in self.prog.structs[st]]
+            if sorted(decl) != sorted(pat[3]):
+                raise TrError(f"{self.where}: line {line}: pattern `{pat[2]} {{..}}` must name every field exactly once")
+            if any(n in env for n in pat[3]):
+                raise TrError(f"{self.where}: line {line}: a field name of `{st}` is also a local variable")
+            names = set(pat[3])
+            stmts = list(stmts[:i]) + self.subst_names(list(stmts[i + 1:]), names, line)
+            tail = self.subst_names(tail, names, line) if tail is not None else None
+            return self.tr_stmts(stmts, i, tail, env, ctx, expected, final, ind)
         if i < len(stmts):
             new = self.desugar(stmts[i], env, ctx, ind)
             if new is not None:
@@ -585,6 +648,9 @@ SELFTEST_CASES = [
     ("ok_find", "(&self, a: i32) -> Option<i32>", "self.r.clone().find(|x| *x > a)", None, "(range_i32_find (range_i32_clone (It_r self)) (fun x => (i32_gt x a)))"),
     ("ok_pow", "(&self, a: i32) -> i32", "a.pow(2)", None, "(i32_pow a (2 : Nat))"),
     ("ok_u64", "(&self, a: u32, b: i32) -> bool", "let t = a as u64 * b as u64; t < a as u64", None, "(u64_mul (u32_as_u64 a) (i32_as_u64 b))"),
+    ("ok_find_map", "(&mut self) -> Option<i32>", "let Self { r, k } = self; r.find_map(|y| if y > *k { Some(y) } else { None })", None,
+     "(range_i32_find_map (It_r self) (fun y => (if (i32_gt y (It_k self)) then"),
+    ("bad_destructure_shadow", "(&mut self) -> Option<i32>", "let Self { r, k } = self; r.find_map(|k| Some(k))", "shadows a name", None),
     ("bad_find_place", "(&mut self, a: i32) -> Option<i32>", "self.r.find(|x| *x > a)", "only `<range>.clone().find(..)`", None),
     ("bad_try_value", "(&mut self) -> Option<i32>", "let y = self.r.next()? + 1; Some(y)", "`?` is only supported", None),
     ("bad_try_ret", "(&mut self) -> i32", "let y = self.r.next()?; y", "does not return an Option", None),
